@@ -157,7 +157,12 @@ func (core *JApiCore) checkPathSchemaRoot(s *jschema.JSchema) error {
 			return fmt.Errorf(`%s (%s)`, jerr.UserTypeNotFound, typeName)
 		}
 
-		return core.checkPathSchemaRoot(ut.Schema.(*catalog.ExchangeJSightSchema).JSchema)
+		es, ok := ut.Schema.(*catalog.ExchangeJSightSchema)
+		if !ok { // a regex / any / empty user type is not an object
+			return errors.New(jerr.PathObjectErr)
+		}
+
+		return core.checkPathSchemaRoot(es.JSchema)
 	}
 
 	if s.ASTNode.TokenType != schema.TokenTypeObject {
